@@ -52,7 +52,7 @@ def _task(args):
         legobj = _legs(mod)[legname]
         rec = core.Recorder(prop, legname, ctx, core.load_known(prop))
         deadline = t0 + deadline_in
-        shrink_budget = 45.0 if tier == "quick" else 240.0
+        shrink_budget = 20.0 if tier == "quick" else 180.0
         if legobj.kind == "hyp":
             core.run_hypothesis(legobj, rec, seed, n, deadline, shrink_budget)
         elif legobj.kind == "enum":
@@ -202,8 +202,7 @@ def main(argv):
                 else:
                     harness.append(res)
     if harness:
-        for h in harness:
-            print("HARNESS-ERROR %s" % h)
+        print("HARNESS-ERROR (%d shard(s)); first:\n%s" % (len(harness), harness[0][:4000]))
         return 2
 
     # 3. merge
